@@ -178,11 +178,15 @@ def _compare_generic_type_args(
     """Compare the arguments of generic types for compatibility."""
     if not required_args or not incoming_args:
         return True
-    if (
-        len(incoming_args) != len(required_args)
-        and Ellipsis not in incoming_args
-        and Ellipsis not in required_args
-    ):
+    incoming_variadic = len(incoming_args) == 2 and incoming_args[1] is Ellipsis
+    if len(required_args) == 2 and required_args[1] is Ellipsis:
+        # `tuple[T, ...]` is required: every element type of the source has to be accepted by `T`
+        elements = incoming_args[:1] if incoming_variadic else incoming_args
+        return all(is_type_compatible(t, required_args[0], memo) for t in elements)
+    if incoming_variadic:
+        # a tuple of unknown length is not acceptable where a fixed number of elements is required
+        return False
+    if len(incoming_args) != len(required_args):
         return False
     return all(is_type_compatible(t1, t2, memo) for t1, t2 in zip(incoming_args, required_args))
 
